@@ -415,6 +415,14 @@ func VhStoredUserSequence(a *Authenticator) (seq uint64, okWrites, failedOps int
 // VhValidEmail replaces IsValidEmail (a regular expression match) in the engine.
 func VhValidEmail(email string) bool { return true }
 
+// VhSetStoredRoleResyncID marks the stored role "r1" as already updated by the given resync.
+func VhSetStoredRoleResyncID(a *Authenticator, id string) {
+	s := a.datastore.(*vhStore)
+	if r := vhStoredRole(s, a.DocIDForRole("r1")); r != nil {
+		r.ResyncID_ = id
+	}
+}
+
 // VhStoredRoleSequence returns the sequence of the stored role "r1" and the store's counters.
 func VhStoredRoleSequence(a *Authenticator) (seq uint64, okWrites, failedOps int) {
 	s := a.datastore.(*vhStore)
